@@ -7,9 +7,9 @@ ids = [json.loads(l)["id"] for l in open(V / "properties.jsonl")]
 reasons = json.loads((V / "tools" / "not_claimed.json").read_text()) if (V / "tools" / "not_claimed.json").exists() else {}
 checks = []; na = []
 import subprocess
-tracked = set(subprocess.run(["git", "ls-files", "props"], cwd=V, capture_output=True, text=True).stdout.split())
+claimed = set((V / "tools" / "claimed.txt").read_text().split())
 for pid in ids:
-    if f"props/{pid}.py" in tracked:
+    if pid in claimed:
         m = importlib.import_module(f"props.{pid}")
         checks.append(dict(
             property_id=pid,
